@@ -17,9 +17,16 @@ import Hv.Patch.OpsWf
 import Hv.Patch.Untouched
 import Hv.Patch.LeafBytes
 import Hv.Patch.NumLemmas
+import Hv.Patch.SpecRefine
+import Hv.Patch.Target
+import Hv.Patch.PatchFields
+import Hv.Patch.ErrorClassOps
 
 namespace Hv.C13
 open Hv.Patch
+
+/-- the repaired code: op values validated, NaN not comparable, REMOVE_VAL compares containers too -/
+def good : Cfg := ⟨true, .neverEqual, .widen64, true⟩
 
 /-! ## 1. parse / serialize round trip (all codes, all header widths) -/
 
@@ -68,7 +75,7 @@ theorem apply_wf {cfg : Cfg} (hv : cfg.validatesValues = true)
 
 /-- the hypotheses are satisfiable and the conclusion non-trivial: SET + APPEND on a real body -/
 example :
-    applyWithCondition ⟨true, .neverEqual, .widen64⟩ [0x81, 0xa1, 0x74, 0x91, 0x01]
+    applyWithCondition good [0x81, 0xa1, 0x74, 0x91, 0x01]
       [⟨.set, [0x78], [0xa1, 0x79]⟩, ⟨.append, [0x74, 0x5b, 0x5d], [0x02]⟩] none
       = .ok [0x82, 0xa1, 0x74, 0x92, 0x01, 0x02, 0xa1, 0x78, 0xa1, 0x79] := by decide
 
@@ -118,6 +125,7 @@ theorem stepOp_validating {cfg : Cfg} {t : Node} {op : Op} (hok : ValueOk op) :
         cases hv : cfg.validatesValues
         · rfl
         · rw [hok]
+    case removeVal => rfl
 
 theorem applyOps_validating {cfg : Cfg} : ∀ (ops : List Op) (t : Node), (∀ op ∈ ops, ValueOk op) →
     applyOps cfg t ops = applyOps (validating cfg) t ops
@@ -230,6 +238,92 @@ example : sitePos [.field [0x61], .field [0x78]]
     (.map [([0x61], .map [([0x78], .leaf [1])]), ([0x62], .leaf [2])]) = [0] := by decide
 example : Diverge [0] [1] := Diverge.here [] [] (by decide)
 
+/-- The same relative to the place the path RESOLVES to (`Spec.resolve`: `p` = position of the
+    container that holds the final segment, `hit` = what the final segment finds there).
+    Everything off `p` is identical, and inside that container every child other than the target
+    keeps its sub-tree — at the same index, one down after DELETE / REMOVE_AT, one up after
+    PREPEND (`movedTo`).  For a one-segment path `p = []`: the siblings in the root map. -/
+theorem untouched_target {cfg : Cfg} {t t' : Node} {op : Op} {segs : List Seg} {p : List Nat} {hit : Hit}
+    (h : applyOp cfg t op segs = .ok t') (hres : Spec.resolve segs t = .ok (p, hit)) :
+    (∀ q, Diverge p q → getAt t' q = getAt t q) ∧
+    (∀ j j' r x, movedTo op.kind hit j = some j' → getAt t (p ++ j :: r) = some x →
+      getAt t' (p ++ j' :: r) = some x) :=
+  applyOp_carries h hres
+
+/-- non-vacuity, one-segment path: in `{"a": 1, "b": [2]}`, `SET a ← 9` resolves to the root map
+    (`p = []`), target index 0; child 1 (`b`) and everything below it stay where they are -/
+example : Spec.resolve [.field [0x61]] (.map [([0x61], .leaf [1]), ([0x62], .arr [.leaf [2]])]) = .ok ([], .target 0) := by
+  rfl
+example : movedTo .set (.target 0) 1 = some 1 ∧ movedTo .delete (.target 0) 1 = some 0 ∧
+    movedTo .prepend .appendSlot 1 = some 2 := by decide
+
+/-! ## 3b. a successful patch stores exactly the documented document -/
+
+/-- SPEC refinement (`Hv.Patch.Spec`: the eight ops over the DECODED document — auto-create,
+    negative indices, first-match on duplicate keys, shallow MERGE, INC in the target's format).
+    `_partial`: all eight ops are covered, REMOVE_VAL only with a scalar value — a container value
+    matches a container element only when that element was spliced in earlier in the same patch
+    (`applyRemoveVal` skips parsed containers), which no value-level semantics can express. -/
+theorem apply_refines_spec_partial {cfg : Cfg} (hv : cfg.validatesValues = true)
+    {body : Bytes} {ops : List Op} {cond : Option Condition} {out : Bytes} {t : Node}
+    (hparse : parse body = .ok t) (hpaths : ∀ op ∈ ops, op.path.length < 2 ^ 32)
+    (hrv : ∀ op ∈ ops, RemoveValScalar cfg op)
+    (hsize : maxCh t + totalGrowth cfg ops < 2 ^ 32)
+    (h : applyWithCondition cfg body ops cond = .ok out) :
+    ∃ d, Spec.refOps t ops = .ok d ∧ parse out = .ok d :=
+  applyWithCondition_refines hv hparse hpaths hrv hsize h
+
+/-- The full refinement — all eight ops, container values included — for the repaired REMOVE_VAL
+    (fact `removeValCompare = canonical`): parsing the returned body gives exactly `Spec.refOps` of
+    the parsed input body. -/
+theorem apply_refines_spec {cfg : Cfg} (hv : cfg.validatesValues = true) (hc : cfg.rmvalCanon = true)
+    {body : Bytes} {ops : List Op} {cond : Option Condition} {out : Bytes} {t : Node}
+    (hparse : parse body = .ok t) (hpaths : ∀ op ∈ ops, op.path.length < 2 ^ 32)
+    (hsize : maxCh t + totalGrowth cfg ops < 2 ^ 32)
+    (h : applyWithCondition cfg body ops cond = .ok out) :
+    ∃ d, Spec.refOps t ops = .ok d ∧ parse out = .ok d :=
+  applyWithCondition_refines hv hparse hpaths
+    (fun _ _ _ hf => by rw [hc] at hf; cases hf) hsize h
+
+/-- ERROR-CLASS AGREEMENT.  When the documented semantics (`Spec.refOps`) fail with class `c`, the
+    code's patch (condition absent or met) fails with the same class `c` — for every op kind,
+    provided (a) every MERGE value is one the code accepts and (b) no op of the patch runs on a
+    document an earlier op of the same patch spliced a container into (`NoSplice`; always true for
+    one-op patches, `noSplice_single`).  Outside (a)/(b) the classes are genuinely ambiguous or a
+    recorded finding: see `Hv.Patch.merge_rejected_class` and `witness_spliced_opaque`. -/
+theorem apply_error_class {cfg : Cfg} (hv : cfg.validatesValues = true) (hc : cfg.rmvalCanon = true)
+    {body : Bytes} {ops : List Op} {cond : Option Condition} {t : Node} {c : Err}
+    (hparse : parse body = .ok t)
+    (hcond : (match cond with | none => Except.ok () | some cd => evalCond cfg t cd) = .ok ())
+    (hpaths : ∀ op ∈ ops, op.path.length < 2 ^ 32) (hm : ∀ op ∈ ops, MergeAccepted op)
+    (hsize : maxCh t + totalGrowth cfg ops < 2 ^ 32) (hns : NoSplice cfg t ops)
+    (h : Spec.refOps t ops = .error c) :
+    applyWithCondition cfg body ops cond = .error c :=
+  applyWithCondition_error_class hv hparse hcond hpaths
+    (fun _ _ _ hf => by rw [hc] at hf; cases hf) hm hsize hns h
+
+/-- … and one op on a parsed document: complete agreement, result and error class alike -/
+theorem op_agrees {cfg : Cfg} (hv : cfg.validatesValues = true) (hc : cfg.rmvalCanon = true)
+    {body : Bytes} {t : Node} {op : Op} (hparse : parse body = .ok t) (hsize : maxCh t < 2 ^ 32)
+    (hm : MergeAccepted op) :
+    Except.map norm (stepOp cfg t op) = Spec.refOp t op :=
+  stepOp_agrees hv hsize (parse_wf hparse).2 (wf_WfB t (parse_wf hparse).1)
+    (fun _ hf => by rw [hc] at hf; cases hf) hm
+
+/-- REMOVE_VAL of a container element parsed from the body, and of one spliced in by the same patch -/
+example : applyWithCondition good [0x81, 0xa1, 0x74, 0x91, 0x91, 0x01] [⟨.removeVal, [0x74], [0x91, 0x01]⟩] none
+      = .ok [0x81, 0xa1, 0x74, 0x90] ∧
+    applyWithCondition good [0x81, 0xa1, 0x74, 0x90]
+      [⟨.append, [0x74, 0x5b, 0x5d], [0xdc, 0x00, 0x01, 0x01]⟩, ⟨.removeVal, [0x74], [0x91, 0x01]⟩] none
+      = .ok [0x81, 0xa1, 0x74, 0x90] := by decide
+
+/-- the Spec is executable: `{"t":[1]}`, SET x ← "y", APPEND t[] ← 2, INC t[-1] by 5 (int8 delta on a
+    fixint: class mismatch is an error; uint delta works and widens per the rule) -/
+example : Spec.refOps (.map [([0x74], .arr [.leaf [1]])])
+    [⟨.set, [0x78], [0xa1, 0x79]⟩, ⟨.append, [0x74, 0x5b, 0x5d], [0x02]⟩, ⟨.inc, [0x74, 0x5b, 0x2d, 0x31, 0x5d], [0x05]⟩]
+    = .ok (.map [([0x74], .arr [.leaf [1], .leaf [0xcf, 0, 0, 0, 0, 0, 0, 0, 7]]), ([0x78], .leaf [0xa1, 0x79])]) := by
+  rfl
+
 /-! ## 4. a failing op or an unmet condition leaves the body unchanged -/
 
 theorem ops_atomic (cfg : Cfg) (body : Bytes) (ops : List Op) (cond : Option Condition) (e : Err)
@@ -260,8 +354,43 @@ theorem cond_unmet (cfg : Cfg) (body : Bytes) (t : Node) (ops : List Op) (c : Co
     unfold applyWithCondition; rw [hp]; simp only; rw [hc]
   exact ⟨this, ops_atomic _ _ _ _ _ this⟩
 
-example : applyWithCondition ⟨true, .neverEqual, .widen64⟩ [0x81, 0xa1, 0x78, 0x01]
+example : applyWithCondition good [0x81, 0xa1, 0x78, 0x01]
     [⟨.set, [0x79], [0x02]⟩, ⟨.inc, [0x78], [0xa1, 0x61]⟩] none = .error .type := by decide
+
+/-- the condition (if any) holds on the parsed body -/
+def CondMet (cfg : Cfg) (t : Node) : Option Condition → Prop
+  | none => True
+  | some c => evalCond cfg t c = .ok ()
+
+/-- Atomicity of the whole call: however many ops have already succeeded — and although that
+    prefix on its own WOULD have produced a different body (`serialize t1`) — the first failing op
+    makes the call fail with that op's error and the caller keeps the ORIGINAL body bytes. -/
+theorem atomic_fold (cfg : Cfg) (body : Bytes) (t t1 : Node) (pre : List Op) (op : Op) (post : List Op)
+    (cond : Option Condition) (e : Err)
+    (hp : parse body = .ok t) (hc : CondMet cfg t cond)
+    (hpre : applyOps cfg t pre = .ok t1) (hop : stepOp cfg t1 op = .error e) :
+    applyWithCondition cfg body pre cond = .ok (serialize t1) ∧
+    applyWithCondition cfg body (pre ++ op :: post) cond = .error e ∧
+    bodyAfter cfg body (pre ++ op :: post) cond = body := by
+  have hfold := ops_atomic_fold cfg pre t t1 op post e hpre hop
+  have h1 : applyWithCondition cfg body pre cond = .ok (serialize t1) := by
+    unfold applyWithCondition; rw [hp]; simp only
+    cases cond with
+    | none => simp only; rw [hpre]
+    | some c => simp only; rw [show evalCond cfg t c = .ok () from hc]; simp only; rw [hpre]
+  have h2 : applyWithCondition cfg body (pre ++ op :: post) cond = .error e := by
+    unfold applyWithCondition; rw [hp]; simp only
+    cases cond with
+    | none => simp only; rw [hfold]
+    | some c => simp only; rw [show evalCond cfg t c = .ok () from hc]; simp only; rw [hfold]
+  exact ⟨h1, h2, ops_atomic _ _ _ _ _ h2⟩
+
+/-- non-vacuity: SET y ← 2 alone changes the body; followed by a failing INC the body is kept -/
+example : bodyAfter good [0x81, 0xa1, 0x78, 0x01] [⟨.set, [0x79], [0x02]⟩] none
+      = [0x82, 0xa1, 0x78, 0x01, 0xa1, 0x79, 0x02] ∧
+    bodyAfter good [0x81, 0xa1, 0x78, 0x01]
+      [⟨.set, [0x79], [0x02]⟩, ⟨.inc, [0x78], [0xa1, 0x61]⟩, ⟨.delete, [0x78], []⟩] none
+      = [0x81, 0xa1, 0x78, 0x01] := by decide
 
 /-! ## 5. INC keeps the target's numeric format -/
 
@@ -275,6 +404,23 @@ theorem inc_preserves_code {code : UInt8} {cls : NumClass} {t d : Nat} {nr : Byt
       ((cls = .int ∧ nr.head? = some 0xd3) ∨ (cls = .uint ∧ nr.head? = some 0xcf))) ∧
     classOf (nr.headD 0) = cls :=
   Hv.Patch.inc_preserves_code hc h
+
+/-- at the op level: a successful INC whose path resolves to an existing leaf leaves, at that very
+    position, a leaf with the target's format code and width (fixint: the 64-bit code of its
+    class) and the same numeric class — also when that leaf was replaced earlier in the patch -/
+theorem inc_keeps_format {cfg : Cfg} {t t' : Node} {op : Op} {segs : List Seg} {p : List Nat} {i : Nat}
+    {raw : Bytes} (hk : op.kind = .inc) (h : applyOp cfg t op segs = .ok t')
+    (hres : Spec.resolve segs t = .ok (p, .target i)) (hleaf : getAt t (p ++ [i]) = some (.leaf raw)) :
+    ∃ nr, getAt t' (p ++ [i]) = some (.leaf nr) ∧
+      (∀ k, typedWidth (raw.headD 0) = some k → nr.head? = some (raw.headD 0) ∧ nr.length = k + 1) ∧
+      (typedWidth (raw.headD 0) = none → nr.length = 9 ∧ (nr.head? = some 0xd3 ∨ nr.head? = some 0xcf)) ∧
+      classOf (nr.headD 0) = classOf (raw.headD 0) :=
+  applyOp_inc_code hk h hres hleaf
+
+/-- SET x ← uint16 256, then INC x by 1: stays uint16 -/
+example : applyWithCondition good [0x81, 0xa1, 0x78, 0x01]
+    [⟨.set, [0x78], [0xcd, 0x01, 0x00]⟩, ⟨.inc, [0x78], [0x01]⟩] none
+    = .ok [0x81, 0xa1, 0x78, 0xcd, 0x01, 0x01] := by decide
 
 example : computeInc 0xd0 .int 0x7f 1 = .ok [0xd0, 0x80] := by decide          -- int8 127+1 wraps
 example : computeInc 0x05 .uint 5 2 = .ok [0xcf, 0, 0, 0, 0, 0, 0, 0, 7] := by decide
@@ -314,13 +460,38 @@ example : readNumeric [0xcb, 0x7f, 0xf8, 0, 0, 0, 0, 0, 0] = .ok (.float, 0x7ff8
 structure Common (cfg : Cfg) : Prop where
   round_trip_exact : ∀ b t, parseStrict b = .ok t → serialize t = b ∧ parse b = .ok t
   round_trip : ∀ b t, parse b = .ok t → parse (serialize t) = .ok t
-  untouched : ∀ t t' op segs, applyOp cfg t op segs = .ok t' →
-    ∀ q, Diverge (sitePos segs t) q → getAt t' q = getAt t q
-  atomic : ∀ body ops cond e, applyWithCondition cfg body ops cond = .error e →
-    bodyAfter cfg body ops cond = body
-  inc_code : ∀ code cls t d nr, classOf code = cls → computeInc code cls t d = .ok nr →
-    (∀ k, typedWidth code = some k → nr.head? = some code ∧ nr.length = k + 1) ∧
-    classOf (nr.headD 0) = cls
+  /-- untouched: off the resolved container everything is identical; inside it every child but the
+      target keeps its sub-tree at the index `movedTo` gives (covers one-segment paths) -/
+  untouched : ∀ t t' op segs p hit, applyOp cfg t op segs = .ok t' → Spec.resolve segs t = .ok (p, hit) →
+    (∀ q, Diverge p q → getAt t' q = getAt t q) ∧
+    (∀ j j' r x, movedTo op.kind hit j = some j' → getAt t (p ++ j :: r) = some x →
+      getAt t' (p ++ j' :: r) = some x)
+  /-- … and such a leaf's bytes are a slice of the input and appear verbatim in the output -/
+  untouched_leaf : ∀ body t t' op segs q raw, parse body = .ok t → applyOp cfg t op segs = .ok t' →
+    Diverge (sitePos segs t) q → getAt t q = some (.leaf raw) →
+    raw <:+: body ∧ getAt t' q = some (.leaf raw) ∧ raw <:+: serialize t'
+  /-- inside a MERGE target: fields the value does not name keep value and index -/
+  merge_keeps : ∀ (pf : List (Bytes × Bytes)) (fs : Fields) (j : Nat) (k : Bytes) (c : Node),
+    fs[j]? = some (k, c) → (∀ kv ∈ pf, kv.1 ≠ k) → (mergeInto fs pf)[j]? = some (k, c)
+  /-- inside a REMOVE_VAL target: at most one element goes, order is kept -/
+  removeVal_keeps : ∀ (c : Bool) (v : Bytes) (xs : List Node), (rmVal c v xs).Sublist xs
+  /-- atomicity: after any successful prefix, the first failing op fails the call and the caller
+      keeps the original bytes (the prefix alone would have changed them) -/
+  atomic : ∀ body t t1 pre op post cond e, parse body = .ok t → CondMet cfg t cond →
+    applyOps cfg t pre = .ok t1 → stepOp cfg t1 op = .error e →
+    applyWithCondition cfg body pre cond = .ok (serialize t1) ∧
+    applyWithCondition cfg body (pre ++ op :: post) cond = .error e ∧
+    bodyAfter cfg body (pre ++ op :: post) cond = body
+  /-- an unmet / failing condition: nothing runs -/
+  cond_unmet : ∀ body t ops c e, parse body = .ok t → evalCond cfg t c = .error e →
+    applyWithCondition cfg body ops (some c) = .error e ∧ bodyAfter cfg body ops (some c) = body
+  /-- INC at the op level keeps the target's format code / width / class -/
+  inc_code : ∀ t t' op segs p i raw, op.kind = .inc → applyOp cfg t op segs = .ok t' →
+    Spec.resolve segs t = .ok (p, .target i) → getAt t (p ++ [i]) = some (.leaf raw) →
+    ∃ nr, getAt t' (p ++ [i]) = some (.leaf nr) ∧
+      (∀ k, typedWidth (raw.headD 0) = some k → nr.head? = some (raw.headD 0) ∧ nr.length = k + 1) ∧
+      (typedWidth (raw.headD 0) = none → nr.length = 9 ∧ (nr.head? = some 0xd3 ∨ nr.head? = some 0xcf)) ∧
+      classOf (nr.headD 0) = classOf (raw.headD 0)
   order_int : ∀ a b av bv, readNumeric a = .ok (.int, av) → readNumeric b = .ok (.int, bv) →
     compareLeaf cfg a b = .ok (cmpInt (toInt64 av) (toInt64 bv))
   order_uint : ∀ a b av bv, readNumeric a = .ok (.uint, av) → readNumeric b = .ok (.uint, bv) →
@@ -342,73 +513,322 @@ def SuccessWfPartial (cfg : Cfg) : Prop :=
     maxCh t + totalGrowth (validating cfg) ops < 2 ^ 32 → applyWithCondition cfg body ops cond = .ok out →
     wf out = true
 
+/-- "a patch produces exactly the document the documented operation semantics describe":
+    parsing the returned body gives `Spec.refOps` of the parsed input body — all eight ops -/
+def RefinesSpec (cfg : Cfg) : Prop :=
+  ∀ body ops cond out t, parse body = .ok t → (∀ op ∈ ops, op.path.length < 2 ^ 32) →
+    maxCh t + totalGrowth cfg ops < 2 ^ 32 → applyWithCondition cfg body ops cond = .ok out →
+    ∃ d, Spec.refOps t ops = .ok d ∧ parse out = .ok d
+
+/-- "… and fails the way the documented semantics fail": a documented failure of class `c` is a
+    failure of class `c` of the code (MERGE values the code accepts; no op after a same-patch splice) -/
+def ErrorClassAgrees (cfg : Cfg) : Prop :=
+  ∀ body ops cond t c, parse body = .ok t →
+    (match cond with | none => Except.ok () | some cd => evalCond cfg t cd) = .ok () →
+    (∀ op ∈ ops, op.path.length < 2 ^ 32) → (∀ op ∈ ops, MergeAccepted op) →
+    maxCh t + totalGrowth cfg ops < 2 ^ 32 → NoSplice cfg t ops →
+    Spec.refOps t ops = .error c → applyWithCondition cfg body ops cond = .error c
+
+/-- the same, restricted to op lists whose spliced values are valid -/
+def RefinesSpecPartial (cfg : Cfg) : Prop :=
+  ∀ body ops cond out t, parse body = .ok t → (∀ op ∈ ops, op.path.length < 2 ^ 32) →
+    (∀ op ∈ ops, RemoveValScalar cfg op) → (∀ op ∈ ops, ValueOk op) →
+    maxCh t + totalGrowth (validating cfg) ops < 2 ^ 32 → applyWithCondition cfg body ops cond = .ok out →
+    ∃ d, Spec.refOps t ops = .ok d ∧ parse out = .ok d
+
 /-- full-strength statement of the property on the model -/
-def Holds (cfg : Cfg) : Prop := Common cfg ∧ SuccessWf cfg ∧ NanEqualNothing cfg
+def Holds (cfg : Cfg) : Prop :=
+  Common cfg ∧ SuccessWf cfg ∧ NanEqualNothing cfg ∧ RefinesSpec cfg ∧ ErrorClassAgrees cfg
 
 /-- what remains true while the findings stand -/
-def HoldsExcept (cfg : Cfg) : Prop := Common cfg ∧ SuccessWfPartial cfg
+def HoldsExcept (cfg : Cfg) : Prop := Common cfg ∧ SuccessWfPartial cfg ∧ RefinesSpecPartial cfg
 
 theorem common (cfg : Cfg) : Common cfg where
   round_trip_exact := fun _ _ h => parse_serialize h
   round_trip := fun _ _ h => parse_serialize_structural h
-  untouched := fun _ _ _ _ h q hq => (untouched_bytes h q hq).1
-  atomic := ops_atomic cfg
-  inc_code := fun _ _ _ _ _ hc h => ⟨(inc_preserves_code hc h).1, (inc_preserves_code hc h).2.2⟩
+  untouched := fun _ _ _ _ _ _ h hres => untouched_target h hres
+  untouched_leaf := fun _ _ _ _ _ _ _ hp h hq hl => untouched_leaf_bytes hp h hq hl
+  merge_keeps := mergeInto_keeps
+  removeVal_keeps := rmVal_sublist
+  atomic := fun body t t1 pre op post cond e hp hc hpre hop => atomic_fold cfg body t t1 pre op post cond e hp hc hpre hop
+  cond_unmet := fun body t ops c e hp hc => cond_unmet cfg body t ops c e hp hc
+  inc_code := fun _ _ _ _ _ _ _ hk h hres hl => inc_keeps_format hk h hres hl
   order_int := (cond_numeric cfg).1
   order_uint := (cond_numeric cfg).2.1
   order_float := (cond_numeric cfg).2.2.1
 
-theorem holds_of_good {cfg : Cfg} (hv : cfg.validatesValues = true) (hn : cfg.nan = .neverEqual) :
-    Holds cfg :=
-  ⟨common cfg, fun _ _ _ _ _ hp hpaths hsize h => apply_wf hv hp hpaths hsize h, nan_equal_nothing hn⟩
+theorem applyWithCondition_validating {cfg : Cfg} {body : Bytes} {ops : List Op} {cond : Option Condition}
+    {t : Node} (hparse : parse body = .ok t) (hvals : ∀ op ∈ ops, ValueOk op) :
+    applyWithCondition cfg body ops cond = applyWithCondition (validating cfg) body ops cond := by
+  unfold applyWithCondition
+  rw [hparse]; simp only
+  cases cond with
+  | none => simp only; rw [applyOps_validating ops t hvals]
+  | some c => simp only; rw [evalCond_validating, applyOps_validating ops t hvals]
+
+/-- `_partial` of the refinement for the unrepaired code: valid spliced values only -/
+theorem apply_refines_spec_unvalidated_partial {cfg : Cfg}
+    {body : Bytes} {ops : List Op} {cond : Option Condition} {out : Bytes} {t : Node}
+    (hparse : parse body = .ok t) (hpaths : ∀ op ∈ ops, op.path.length < 2 ^ 32)
+    (hrv : ∀ op ∈ ops, RemoveValScalar cfg op) (hvals : ∀ op ∈ ops, ValueOk op)
+    (hsize : maxCh t + totalGrowth (validating cfg) ops < 2 ^ 32)
+    (h : applyWithCondition cfg body ops cond = .ok out) :
+    ∃ d, Spec.refOps t ops = .ok d ∧ parse out = .ok d := by
+  rw [applyWithCondition_validating hparse hvals] at h
+  exact applyWithCondition_refines (cfg := validating cfg) rfl hparse hpaths hrv hsize h
+
+theorem holds_of_good {cfg : Cfg} (hv : cfg.validatesValues = true) (hn : cfg.nan = .neverEqual)
+    (hc : cfg.rmvalCanon = true) : Holds cfg :=
+  ⟨common cfg, fun _ _ _ _ _ hp hpaths hsize h => apply_wf hv hp hpaths hsize h, nan_equal_nothing hn,
+   fun _ _ _ _ _ hp hpaths hsize h => apply_refines_spec hv hc hp hpaths hsize h,
+   fun _ _ _ _ _ hp hcond hpaths hm hsize hns h => apply_error_class hv hc hp hcond hpaths hm hsize hns h⟩
 
 theorem holds_except (cfg : Cfg) : HoldsExcept cfg :=
-  ⟨common cfg, fun _ _ _ _ _ hp hpaths hvals hsize h => apply_wf_partial hp hpaths hvals hsize h⟩
+  ⟨common cfg, fun _ _ _ _ _ hp hpaths hvals hsize h => apply_wf_partial hp hpaths hvals hsize h,
+   fun _ _ _ _ _ hp hpaths hrv hvals hsize h => apply_refines_spec_unvalidated_partial hp hpaths hrv hvals hsize h⟩
 
 /-! ## 8. witnesses for the unrepaired fact values (each reproduced on the real code) -/
 
 /-- `{"x": 1}`, `SET x ← 0xc1`: success, and the stored body no longer parses -/
-theorem witness_unvalidated (n : NanRule) (fx : FixintRule) :
-    applyWithCondition ⟨false, n, fx⟩ [0x81, 0xa1, 0x78, 0x01] [⟨.set, [0x78], [0xc1]⟩] none
+theorem witness_unvalidated (n : NanRule) (fx : FixintRule) (rc : Bool) :
+    applyWithCondition ⟨false, n, fx, rc⟩ [0x81, 0xa1, 0x78, 0x01] [⟨.set, [0x78], [0xc1]⟩] none
       = .ok [0x81, 0xa1, 0x78, 0xc1] ∧
     wf [0x81, 0xa1, 0x78, 0xc1] = false := by
-  cases n <;> cases fx <;> decide
+  cases n <;> cases fx <;> cases rc <;> decide
 
 /-- the repaired code rejects it -/
 theorem witness_unvalidated_fixed :
-    applyWithCondition ⟨true, .neverEqual, .widen64⟩ [0x81, 0xa1, 0x78, 0x01] [⟨.set, [0x78], [0xc1]⟩] none
+    applyWithCondition good [0x81, 0xa1, 0x78, 0x01] [⟨.set, [0x78], [0xc1]⟩] none
       = .error .msgpack := by decide
 
 def nanLeaf : Bytes := [0xcb, 0x7f, 0xf8, 0, 0, 0, 0, 0, 0]
 
 /-- `{"f": NaN}`, condition `f EQUAL NaN`: met -/
-theorem witness_nan_equal (v : Bool) (fx : FixintRule) :
-    compareLeaf ⟨v, .equal, fx⟩ nanLeaf nanLeaf = .ok 0 ∧
-    applyWithCondition ⟨v, .equal, fx⟩ (0x81 :: 0xa1 :: 0x66 :: nanLeaf) [] (some ⟨[0x66], .eq, nanLeaf⟩)
+theorem witness_nan_equal (v : Bool) (fx : FixintRule) (rc : Bool) :
+    compareLeaf ⟨v, .equal, fx, rc⟩ nanLeaf nanLeaf = .ok 0 ∧
+    applyWithCondition ⟨v, .equal, fx, rc⟩ (0x81 :: 0xa1 :: 0x66 :: nanLeaf) [] (some ⟨[0x66], .eq, nanLeaf⟩)
       = .ok (0x81 :: 0xa1 :: 0x66 :: nanLeaf) := by
-  cases v <;> cases fx <;> decide
+  cases v <;> cases fx <;> cases rc <;> decide
 
 theorem witness_nan_fixed :
-    applyWithCondition ⟨true, .neverEqual, .widen64⟩ (0x81 :: 0xa1 :: 0x66 :: nanLeaf) []
+    applyWithCondition good (0x81 :: 0xa1 :: 0x66 :: nanLeaf) []
       (some ⟨[0x66], .eq, nanLeaf⟩) = .error .type := by decide
 
-theorem not_successWf_of_unvalidated (n : NanRule) (fx : FixintRule) : ¬ SuccessWf ⟨false, n, fx⟩ := by
+theorem not_successWf_of_unvalidated (n : NanRule) (fx : FixintRule) (rc : Bool) :
+    ¬ SuccessWf ⟨false, n, fx, rc⟩ := by
   intro h
-  have hw := witness_unvalidated n fx
+  have hw := witness_unvalidated n fx rc
   have := h [0x81, 0xa1, 0x78, 0x01] [⟨.set, [0x78], [0xc1]⟩] none [0x81, 0xa1, 0x78, 0xc1]
-    (.map [([0x78], .leaf [0x01])]) (by rfl) (by decide) (by cases n <;> cases fx <;> decide) hw.1
+    (.map [([0x78], .leaf [0x01])]) (by rfl) (by decide) (by cases n <;> cases fx <;> cases rc <;> decide) hw.1
   rw [hw.2] at this
   cases this
 
-theorem not_nanEqualNothing_of_equal (v : Bool) (fx : FixintRule) : ¬ NanEqualNothing ⟨v, .equal, fx⟩ := by
+theorem not_nanEqualNothing_of_equal (v : Bool) (fx : FixintRule) (rc : Bool) :
+    ¬ NanEqualNothing ⟨v, .equal, fx, rc⟩ := by
   intro h
   exact h nanLeaf nanLeaf .float .float 0x7ff8000000000000 0x7ff8000000000000 (by decide) (by decide)
-    (Or.inl ⟨rfl, by decide⟩) (witness_nan_equal v fx).1
+    (Or.inl ⟨rfl, by decide⟩) (witness_nan_equal v fx rc).1
 
-/-! ## 9. decision over the extracted facts -/
+/-- `{"t": [[1]]}`, `REMOVE_VAL t ← [1]`: the documented semantics remove the element, the
+    unrepaired code (scalar leaves only) reports success and leaves the body as it was -/
+theorem witness_removeVal_container (v : Bool) (n : NanRule) (fx : FixintRule) :
+    applyWithCondition ⟨v, n, fx, false⟩ [0x81, 0xa1, 0x74, 0x91, 0x91, 0x01]
+      [⟨.removeVal, [0x74], [0x91, 0x01]⟩] none = .ok [0x81, 0xa1, 0x74, 0x91, 0x91, 0x01] ∧
+    Spec.refOps (.map [([0x74], .arr [.arr [.leaf [0x01]]])]) [⟨.removeVal, [0x74], [0x91, 0x01]⟩]
+      = .ok (.map [([0x74], .arr [])]) := by
+  constructor
+  · cases v <;> cases n <;> cases fx <;> decide
+  · rfl
+
+theorem not_refinesSpec_of_scalar (v : Bool) (n : NanRule) (fx : FixintRule) :
+    ¬ RefinesSpec ⟨v, n, fx, false⟩ := by
+  intro h
+  have hw := witness_removeVal_container v n fx
+  obtain ⟨d, hd1, hd2⟩ := h [0x81, 0xa1, 0x74, 0x91, 0x91, 0x01] [⟨.removeVal, [0x74], [0x91, 0x01]⟩] none
+    [0x81, 0xa1, 0x74, 0x91, 0x91, 0x01] (.map [([0x74], .arr [.arr [.leaf [0x01]]])]) (by rfl) (by decide)
+    (by cases v <;> cases n <;> cases fx <;> decide) hw.1
+  rw [hw.2] at hd1
+  injection hd1 with hd1
+  subst hd1
+  have hp : parse [0x81, 0xa1, 0x74, 0x91, 0x91, 0x01] = .ok (.map [([0x74], .arr [.arr [.leaf [0x01]]])]) := by rfl
+  rw [hp] at hd2
+  injection hd2 with hd2
+  injection hd2 with hd2
+  simp at hd2
+
+/-- RECORDED DEVIATION (`C13-spliced-value-opaque`), not covered by `Holds` (which speaks about
+    successes): a container value stored by an op is an opaque leaf for the later ops of the same
+    patch.  `SET x ← {"a":1}; SET x.a ← 2` on `{}`: the documented semantics give `{"x":{"a":2}}`, the
+    code rejects the patch with TYPE_MISMATCH — and accepts the same two ops sent as two patches. -/
+theorem witness_spliced_opaque :
+    Spec.refOps (.map []) [⟨.set, [0x78], [0x81, 0xa1, 0x61, 0x01]⟩, ⟨.set, [0x78, 0x2e, 0x61], [0x02]⟩]
+      = .ok (.map [([0x78], .map [([0x61], .leaf [0x02])])]) ∧
+    applyWithCondition good [0x80]
+      [⟨.set, [0x78], [0x81, 0xa1, 0x61, 0x01]⟩, ⟨.set, [0x78, 0x2e, 0x61], [0x02]⟩] none = .error .type ∧
+    applyWithCondition good [0x80] [⟨.set, [0x78], [0x81, 0xa1, 0x61, 0x01]⟩] none
+      = .ok [0x81, 0xa1, 0x78, 0x81, 0xa1, 0x61, 0x01] ∧
+    applyWithCondition good [0x81, 0xa1, 0x78, 0x81, 0xa1, 0x61, 0x01] [⟨.set, [0x78, 0x2e, 0x61], [0x02]⟩] none
+      = .ok [0x81, 0xa1, 0x78, 0x81, 0xa1, 0x61, 0x02] := by
+  refine ⟨by rfl, by decide, by decide, by decide⟩
+
+/-! ## 9. the PatchFields layer (swamp_patch.go) -/
+
+/-- the body `PatchFields` works on, and whether the call creates the treasure -/
+def pfInput (pc : PfCfg) (tr : Treasure) (seed : Bytes) : Option (Bytes × Bool) :=
+  match pfBody pc tr (seedOf pc seed) with
+  | .ok x => some x
+  | .error _ => none
+
+theorem pfBody_ok {pc : PfCfg} {tr : Treasure} {s body : Bytes} {ic : Bool}
+    (h : pfBody pc tr s = .ok (body, ic)) : (ic = true ↔ tr.content = .absent) := by
+  unfold pfBody at h
+  cases hcont : tr.content with
+  | absent => rw [hcont] at h; simp only at h; injection h with h; injection h with _ hi; simp [← hi]
+  | other => rw [hcont] at h; cases h
+  | bytes raw =>
+    rw [hcont] at h; simp only at h
+    cases raw with
+    | nil => cases h
+    | cons x r =>
+      cases r with
+      | nil => cases h
+      | cons y bd =>
+        simp only at h
+        by_cases hxy : x = pc.magic.b0 ∧ y = pc.magic.b1
+        · rw [if_pos hxy] at h; injection h with h; injection h with _ hi; simp [← hi]
+        · rw [if_neg hxy] at h; cases h
+
+theorem pfBody_err {pc : PfCfg} {tr : Treasure} {s : Bytes} {st : Nat}
+    (h : pfBody pc tr s = .error st) : st = 5 ∨ st = 7 := by
+  unfold pfBody at h
+  cases hcont : tr.content with
+  | absent => rw [hcont] at h; cases h
+  | other => rw [hcont] at h; simp only at h; injection h with h; exact Or.inl h.symm
+  | bytes raw =>
+    rw [hcont] at h; simp only at h
+    cases raw with
+    | nil => injection h with h; exact Or.inr h.symm
+    | cons x r =>
+      cases r with
+      | nil => injection h with h; exact Or.inr h.symm
+      | cons y bd =>
+        simp only at h
+        by_cases hxy : x = pc.magic.b0 ∧ y = pc.magic.b1
+        · rw [if_pos hxy] at h; cases h
+        · rw [if_neg hxy] at h; injection h with h; exact Or.inr h.symm
+
+theorem pfGate_ok {pc : PfCfg} {tr : Treasure} {create : Bool} {seed body : Bytes} {ic : Bool}
+    (h : pfGate pc tr create seed = .ok (body, ic)) :
+    pfInput pc tr seed = some (body, ic) ∧ (ic = true → create = true) ∧ (ic = true ↔ tr.content = .absent) := by
+  unfold pfGate at h
+  by_cases c1 : (!create && decide (tr.content = .absent)) = true
+  · rw [if_pos c1] at h; cases h
+  · rw [if_neg c1] at h
+    by_cases c2 : (create && !wf (seedOf pc seed)) = true
+    · rw [if_pos c2] at h; cases h
+    · rw [if_neg c2] at h
+      have hb := pfBody_ok h
+      refine ⟨by unfold pfInput; rw [h], fun hi => ?_, hb⟩
+      have habs := hb.mp hi
+      cases create with
+      | true => rfl
+      | false => simp [habs] at c1
+
+theorem pfGate_err {pc : PfCfg} {tr : Treasure} {create : Bool} {seed : Bytes} {s : Nat}
+    (h : pfGate pc tr create seed = .error s) : s = 2 ∨ s = 5 ∨ s = 7 := by
+  unfold pfGate at h
+  by_cases c1 : (!create && decide (tr.content = .absent)) = true
+  · rw [if_pos c1] at h; injection h with h; exact Or.inl h.symm
+  · rw [if_neg c1] at h
+    by_cases c2 : (create && !wf (seedOf pc seed)) = true
+    · rw [if_pos c2] at h; injection h with h; exact Or.inr (Or.inl h.symm)
+    · rw [if_neg c2] at h; exact Or.inr (pfBody_err h)
+
+/-- Reply status and stored body of `PatchFields` against the Spec.
+    * PATCHED / CREATED are reported exactly when the patch applied to the stored body behind the
+      two-byte prefix (or, for a missing key with CreateIfNotExist, to the seed / the empty map);
+      the treasure then holds prefix ++ body, `NewMsgpack` echoes that body, the body parses to
+      `Spec.refOps` of the parsed input, CREATED ⇔ the key was missing, and the meta fields are
+      stamped per `applyMeta` (Created* only on create, ClearExpiredAt over SetExpiredAt).
+    * every other status leaves the treasure exactly as it was and echoes nothing; a failing op or
+      condition reports the documented status of its error class. -/
+theorem patchFields_refines (pc : PfCfg) (hv : pc.cfg.validatesValues = true) (hc : pc.cfg.rmvalCanon = true)
+    (hm : pc.smap = documentedMap) (tr : Treasure) (ops : List Op) (cond : Option Condition)
+    (create : Bool) (seed : Bytes) (m : Option PatchMeta) :
+    ((patchFieldsT pc tr ops cond create seed m).status ≠ 0 ∧ (patchFieldsT pc tr ops cond create seed m).status ≠ 1 →
+      (patchFieldsT pc tr ops cond create seed m).treasure = tr ∧
+      (patchFieldsT pc tr ops cond create seed m).newBody = none) ∧
+    ((patchFieldsT pc tr ops cond create seed m).status = 0 ∨ (patchFieldsT pc tr ops cond create seed m).status = 1 →
+      ∃ body isCreate out t, pfInput pc tr seed = some (body, isCreate) ∧ parse body = .ok t ∧
+        (isCreate = true → create = true) ∧ (isCreate = true ↔ tr.content = .absent) ∧
+        ((patchFieldsT pc tr ops cond create seed m).status = 1 ↔ isCreate = true) ∧
+        applyWithCondition pc.cfg body ops cond = .ok out ∧
+        (patchFieldsT pc tr ops cond create seed m).newBody = some out ∧
+        (patchFieldsT pc tr ops cond create seed m).treasure =
+          applyMeta m isCreate { tr with content := .bytes (pc.magic.b0 :: pc.magic.b1 :: out) } ∧
+        ((∀ op ∈ ops, op.path.length < 2 ^ 32) → maxCh t + totalGrowth pc.cfg ops < 2 ^ 32 →
+          ∃ d, Spec.refOps t ops = .ok d ∧ parse out = .ok d)) ∧
+    (∀ body isCreate e, pfGate pc tr create seed = .ok (body, isCreate) →
+      applyWithCondition pc.cfg body ops cond = .error e →
+      (patchFieldsT pc tr ops cond create seed m).status = documentedMap.of e) := by
+  have hstat : ∀ e, pc.smap.of e ≠ 0 ∧ pc.smap.of e ≠ 1 := by
+    intro e; rw [hm]; cases e <;> decide
+  unfold patchFieldsT
+  cases hg : pfGate pc tr create seed with
+  | error s =>
+    simp only
+    have hs := pfGate_err hg
+    refine ⟨fun _ => by simp, fun h => ?_, fun _ _ _ h => by cases h⟩
+    rcases hs with rfl | rfl | rfl <;> simp at h
+  | ok bi =>
+    obtain ⟨body, ic⟩ := bi
+    simp only
+    cases ha : applyWithCondition pc.cfg body ops cond with
+    | error e =>
+      simp only
+      refine ⟨fun _ => by simp, fun h => ?_, fun b i e' h1 h2 => ?_⟩
+      · have := hstat e; rcases h with h | h
+        · exact absurd h this.1
+        · exact absurd h this.2
+      · injection h1 with h1; injection h1 with hb hi; subst hb hi
+        rw [ha] at h2; injection h2 with h2; subst h2
+        rw [hm]
+    | ok out =>
+      simp only
+      obtain ⟨hin, hcr, habs⟩ := pfGate_ok hg
+      have hparse : ∃ t, parse body = .ok t := by
+        unfold applyWithCondition at ha
+        cases hp : parse body with
+        | error e => rw [hp] at ha; cases ha
+        | ok t => exact ⟨t, rfl⟩
+      obtain ⟨t, ht⟩ := hparse
+      refine ⟨fun h => ?_, fun _ => ⟨body, ic, out, t, hin, ht, hcr, habs, ?_, ha, rfl, rfl, ?_⟩,
+        fun b i e' h1 h2 => ?_⟩
+      · cases ic <;> simp at h
+      · cases ic <;> simp
+      · intro hpaths hsize
+        exact apply_refines_spec hv hc ht hpaths hsize ha
+      · injection h1 with h1; injection h1 with hb hi; subst hb hi
+        rw [ha] at h2; cases h2
+
+/-- non-vacuity: create with a seed, INC, and meta -/
+example : patchFieldsT ⟨good, ⟨0xc7, 0x00⟩, documentedMap, [0x80]⟩ Treasure.empty
+      [⟨.inc, [0x78], [0x02]⟩] none true [0x81, 0xa1, 0x78, 0x01]
+      (some ⟨true, [0x62], true, [], some 1900000000000000000, false⟩)
+    = ⟨1, ⟨.bytes [0xc7, 0x00, 0x81, 0xa1, 0x78, 0xcf, 0, 0, 0, 0, 0, 0, 0, 3], 1900000000000000000, true, [0x62], true, []⟩,
+       some [0x81, 0xa1, 0x78, 0xcf, 0, 0, 0, 0, 0, 0, 0, 3]⟩ := by decide
+
+/-! ## 10. decision over the extracted facts -/
 
 inductive DupRule where
   | first | unknown
+  deriving DecidableEq, Repr
+
+/-- which array elements `applyRemoveVal` compares -/
+inductive RmvalRule where
+  | scalarBytes   -- `if item.Kind != KindLeaf { continue }`: leaves only, raw bytes   [bb38e3b]
+  | canonical     -- every element, by its canonical encoding (`elementBytes` / `canonicalValue`)
+  | unknown
   deriving DecidableEq, Repr
 
 structure Facts where
@@ -416,41 +836,102 @@ structure Facts where
   nanCompare : NanRule
   incFixint : FixintRule
   dupKey : DupRule
+  removeValCompare : RmvalRule
   magic0 : Option Nat
   magic1 : Option Nat
+  stCond : Option Nat
+  stType : Option Nat
+  stPath : Option Nat
+  stOp : Option Nat
+  stMsgpack : Option Nat
+  stNonstr : Option Nat
+  seedDefault : Option Nat
   deriving Repr
 
 def cfgOf (f : Facts) : Cfg :=
-  { validatesValues := f.validatesValues.isYes, nan := f.nanCompare, fixint := f.incFixint }
+  { validatesValues := f.validatesValues.isYes, nan := f.nanCompare, fixint := f.incFixint,
+    rmvalCanon := f.removeValCompare == .canonical }
+
+def smapOf (f : Facts) : StatusMap :=
+  ⟨f.stCond.getD 99, f.stType.getD 99, f.stPath.getD 99, f.stOp.getD 99, f.stMsgpack.getD 99, f.stNonstr.getD 99⟩
+
+def pfOf (f : Facts) : PfCfg :=
+  ⟨cfgOf f, ⟨UInt8.ofNat (f.magic0.getD 0), UInt8.ofNat (f.magic1.getD 0)⟩, smapOf f, [UInt8.ofNat (f.seedDefault.getD 0)]⟩
+
+/-- the PatchFields layer: documented status mapping, and reply / stored body = Spec -/
+def PFHolds (pc : PfCfg) : Prop :=
+  pc.smap = documentedMap ∧
+  ∀ tr ops cond create seed m,
+    ((patchFieldsT pc tr ops cond create seed m).status ≠ 0 ∧ (patchFieldsT pc tr ops cond create seed m).status ≠ 1 →
+      (patchFieldsT pc tr ops cond create seed m).treasure = tr ∧
+      (patchFieldsT pc tr ops cond create seed m).newBody = none) ∧
+    ((patchFieldsT pc tr ops cond create seed m).status = 0 ∨ (patchFieldsT pc tr ops cond create seed m).status = 1 →
+      ∃ body isCreate out t, pfInput pc tr seed = some (body, isCreate) ∧ parse body = .ok t ∧
+        (isCreate = true → create = true) ∧ (isCreate = true ↔ tr.content = .absent) ∧
+        ((patchFieldsT pc tr ops cond create seed m).status = 1 ↔ isCreate = true) ∧
+        applyWithCondition pc.cfg body ops cond = .ok out ∧
+        (patchFieldsT pc tr ops cond create seed m).newBody = some out ∧
+        (patchFieldsT pc tr ops cond create seed m).treasure =
+          applyMeta m isCreate { tr with content := .bytes (pc.magic.b0 :: pc.magic.b1 :: out) } ∧
+        ((∀ op ∈ ops, op.path.length < 2 ^ 32) → maxCh t + totalGrowth pc.cfg ops < 2 ^ 32 →
+          ∃ d, Spec.refOps t ops = .ok d ∧ parse out = .ok d)) ∧
+    (∀ body isCreate e, pfGate pc tr create seed = .ok (body, isCreate) →
+      applyWithCondition pc.cfg body ops cond = .error e →
+      (patchFieldsT pc tr ops cond create seed m).status = documentedMap.of e)
+
+/-- the property on the model: the patch layer and the PatchFields layer -/
+def Full (f : Facts) : Prop := Holds (cfgOf f) ∧ PFHolds (pfOf f)
 
 def hasUnknown (f : Facts) : Bool :=
   f.validatesValues == .unknown || f.nanCompare == .unknown || f.incFixint == .unknown ||
-  f.dupKey == .unknown || f.magic0.isNone || f.magic1.isNone
+  f.dupKey == .unknown || f.removeValCompare == .unknown || f.magic0.isNone || f.magic1.isNone ||
+  f.stCond.isNone || f.stType.isNone || f.stPath.isNone || f.stOp.isNone || f.stMsgpack.isNone ||
+  f.stNonstr.isNone || f.seedDefault.isNone
+
+def allGood (f : Facts) : Bool :=
+  f.validatesValues == .yes && f.nanCompare == .neverEqual && f.removeValCompare == .canonical &&
+  smapOf f == documentedMap
 
 def findings (f : Facts) : List String :=
   (if f.validatesValues == .no then ["C13-unvalidated-op-value"] else []) ++
-  (if f.nanCompare == .equal then ["C13-nan-compares-equal"] else [])
+  (if f.nanCompare == .equal then ["C13-nan-compares-equal"] else []) ++
+  (if f.removeValCompare == .scalarBytes then ["C13-removeval-skips-containers"] else []) ++
+  (if smapOf f == documentedMap then [] else ["C13-status-mapping"])
 
 def classify (f : Facts) : Verdict :=
   if hasUnknown f then .undetermined "a msgpackpatch / swamp_patch.go pattern was not recognised"
-  else if findings f = [] then .holds
+  else if allGood f then .holds
   else .violated (findings f)
 
-theorem classify_sound (f : Facts) : (classify f).Sound (Holds (cfgOf f)) (HoldsExcept (cfgOf f)) := by
-  obtain ⟨vv, nc, fx, dk, m0, m1⟩ := f
+theorem classify_sound (f : Facts) : (classify f).Sound (Full f) (HoldsExcept (cfgOf f)) := by
   unfold classify
   split
   · trivial
   · rename_i hu
-    cases vv <;> cases nc <;> simp [hasUnknown] at hu <;> simp only [findings, cfgOf, Tri.isYes] <;>
-      simp only [Verdict.Sound]
-    · -- yes, equal
-      exact ⟨fun h => not_nanEqualNothing_of_equal true fx h.2.2, holds_except _⟩
-    · -- yes, neverEqual
-      exact holds_of_good rfl rfl
-    · -- no, equal
-      exact ⟨fun h => not_successWf_of_unvalidated .equal fx h.2.1, holds_except _⟩
-    · -- no, neverEqual
-      exact ⟨fun h => not_successWf_of_unvalidated .neverEqual fx h.2.1, holds_except _⟩
+    split
+    · -- every fact has its repaired / documented value
+      rename_i hg
+      simp only [allGood, Bool.and_eq_true, beq_iff_eq] at hg
+      obtain ⟨⟨⟨h1, h2⟩, h3⟩, h4⟩ := hg
+      have hv : (cfgOf f).validatesValues = true := by simp [cfgOf, h1, Tri.isYes]
+      have hc : (cfgOf f).rmvalCanon = true := by simp [cfgOf, h3]
+      have hn : (cfgOf f).nan = .neverEqual := by simp [cfgOf, h2]
+      exact ⟨holds_of_good hv hn hc, h4, fun tr ops cond create seed m =>
+        patchFields_refines (pfOf f) hv hc h4 tr ops cond create seed m⟩
+    · rename_i hb
+      refine ⟨fun hfull => ?_, holds_except _⟩
+      obtain ⟨hH, hP⟩ := hfull
+      obtain ⟨vv, nc, fx, dk, rv, m0, m1, s1, s2, s3, s4, s5, s6, sd⟩ := f
+      by_cases hs : smapOf ⟨vv, nc, fx, dk, rv, m0, m1, s1, s2, s3, s4, s5, s6, sd⟩ = documentedMap
+      · cases vv <;> cases nc <;> cases rv <;> simp [hasUnknown] at hu
+        · exact not_nanEqualNothing_of_equal true fx _ hH.2.2.1
+        · exact not_nanEqualNothing_of_equal true fx _ hH.2.2.1
+        · exact not_refinesSpec_of_scalar true .neverEqual fx hH.2.2.2.1
+        · exact hb (by simp [allGood, hs])
+        · exact not_successWf_of_unvalidated .equal fx _ hH.2.1
+        · exact not_successWf_of_unvalidated .equal fx _ hH.2.1
+        · exact not_successWf_of_unvalidated .neverEqual fx _ hH.2.1
+        · exact not_successWf_of_unvalidated .neverEqual fx _ hH.2.1
+      · exact hs hP.1
 
 end Hv.C13
